@@ -192,7 +192,7 @@ class MockBackend:
 
 def observe_to(mc):
     rec = {"kind": "to_tk", "mc": mc, "tk": EMPTY_TK, "exc": "", "refused": 0, "mock": None, "counts": None, "counts_exc": "",
-           "evalb": None, "evalb_exc": "", "batched": None, "batched_exc": ""}
+           "evalb": None, "evalb_exc": "", "batched": None, "batched_exc": "", "local": None, "local_exc": ""}
     try:
         real = qadapt.mixed_circuit(mc)
         t = real.to_tk()
@@ -229,6 +229,12 @@ def observe_to(mc):
         rec["mock"] = dense_raw
     except Exception as e:
         rec["counts_exc"] = type(e).__name__
+    # the circuit's own mixed evaluation (after initialising inputs and discarding qubits): the other side of the statement
+    try:
+        import numpy as np
+        rec["local"] = [complex(v) for v in np.asarray(real.init_and_discard().eval(mixed=True).array).flatten()]
+    except Exception as e:
+        rec["local_exc"] = type(e).__name__
     # the same circuit as the second of a batch whose first circuit carries another scalar (tket scalar 4)
     try:
         from discopy.quantum import Ket, Measure, scalar
@@ -376,6 +382,10 @@ def daggered_gate_family():
             layers = [{"g": _mg("Ket", bits=[0, 1]), "off": 0}, {"g": _mg("H"), "off": 0}, {"g": _mg("Ctrl", sub=sub, subdg=sd), "off": 0}]
             layers += [{"g": _mg(u), "off": 0} for u in undo] + [{"g": _mg("H"), "off": 0}, M, dict(M, off=1)]
             out.append({"ty": [], "layers": layers})
+        # the target on an eigenstate of Y (S H |0>): the eigenvalue is kicked back onto the control as a sign
+        layers = [{"g": _mg("Ket", bits=[0, 0]), "off": 0}, {"g": _mg("H"), "off": 0}, {"g": _mg("H"), "off": 1}, {"g": _mg("S"), "off": 1},
+                  {"g": _mg("Ctrl", sub=sub, subdg=sd), "off": 0}, {"g": _mg("H"), "off": 0}, M, dict(M, off=1)]
+        out.append({"ty": [], "layers": layers})
     return out
 
 
@@ -550,6 +560,28 @@ def cmp(exp, got):
     return max([abs(a - b) for a, b in zip(got, ys)] + [0.0]) <= 1e-9 * scale
 
 
+def local_clauses(r, e):
+    """the clauses of an exported circuit that compare the library's own numbers (backend runs, batch, own mixed
+    evaluation) with TLC's exact distribution e["want"]"""
+    if r["counts_exc"]:
+        return "get-counts-through-backend-raised"
+    if not cmp(e["raw"], r["mock"]):
+        raise core.Machinery("the mock backend's frequencies disagree with Tket!TkDist on %s" % json.dumps(r["tk"]))
+    if not cmp(e["want"], r["counts"]):
+        return "counts-through-exact-backend-differ-from-local-evaluation"
+    if r["local_exc"] or not cmp(e["want"], r["local"]):
+        return "the-circuits-own-mixed-evaluation-is-not-the-distribution-the-export-was-judged-against"
+    if r["batched_exc"]:
+        return "get-counts-of-a-batch-through-backend-raised"
+    if not cmp(e["want"], r["batched"]):
+        return "counts-of-the-second-circuit-of-a-batch-differ-from-local-evaluation"
+    if r["evalb_exc"]:
+        return "eval-through-backend-raised"
+    if not cmp(e["want"], r["evalb"]):
+        return "eval-through-exact-backend-differs-from-local-evaluation"
+    return "ok"
+
+
 def run(tier, seed, t0):
     c = CONST[tier]
     rnd = core.rng(seed, "C13")
@@ -576,20 +608,7 @@ def run(tier, seed, t0):
         for r, e in zip(judged, exp):
             clause = e["v"][0]
             if clause == "ok" and r["kind"] == "to_tk":
-                if r["counts_exc"]:
-                    clause = "get-counts-through-backend-raised"
-                elif not cmp(e["raw"], r["mock"]):
-                    raise core.Machinery("the mock backend's frequencies disagree with Tket!TkDist on %s" % json.dumps(r["tk"]))
-                elif not cmp(e["want"], r["counts"]):
-                    clause = "counts-through-exact-backend-differ-from-local-evaluation"
-                elif r["batched_exc"]:
-                    clause = "get-counts-of-a-batch-through-backend-raised"
-                elif not cmp(e["want"], r["batched"]):
-                    clause = "counts-of-the-second-circuit-of-a-batch-differ-from-local-evaluation"
-                elif r["evalb_exc"]:
-                    clause = "eval-through-backend-raised"
-                elif not cmp(e["want"], r["evalb"]):
-                    clause = "eval-through-exact-backend-differs-from-local-evaluation"
+                clause = local_clauses(r, e)
             clauses[clause] += 1
             if clause != "ok":
                 boxes = sorted(set(l["g"]["k"] + ("(%d,%d)" % (l["g"]["f1"], l["g"]["f2"]) if l["g"]["k"] == "Measure" else "")
@@ -647,7 +666,10 @@ def replay(path):
             rec = observe_from(t["tk"])
         tf = os.path.join(work, "one.ndjson")
         core.write_ndjson(tf, [{"kind": rec["kind"], "mc": rec["mc"], "tk": rec["tk"], "exc": rec["exc"]}])
-        v = core.validate("Trace_Tket", "Out", tf, work, constants=VC())["rows"][0]["v"][0]
+        e = core.validate("Trace_Tket", "Out", tf, work, constants=VC())["rows"][0]
+        v = e["v"][0]
+        if v == "ok" and rec["kind"] == "to_tk" and not rec["refused"]:
+            v = local_clauses(rec, e)
         print("replayed: %s" % v)
         if v != "ok":
             print("VIOLATION property=C13 replay=%s clause=%s" % (path, v))
